@@ -241,3 +241,129 @@ def c18(tier):
 
 
 CHECKS = {"C17": c17, "C18": c18}
+
+
+# ------------------------------------------------------------------------------------------ C16
+
+TYPE_NAMES = ["Option", "Result", "Iterator", "DoubleEndedIterator", "ExactSizeIterator", "FusedIterator", "IntoIterator", "From", "Into",
+              "TryFrom", "FromStr", "Copy", "Clone", "Sized", "FnMut", "Debug", "Display", "Formatter", "MaybeUninit", "RangeInclusive", "Map",
+              "Copied", "Iter", "IntoIter", "core", "std", "alloc", "Ordering", "PartialEq", "Eq", "Default", "Send", "Sync", "Fn", "FnOnce", "Drop", "AsRef", "ToString",
+              "String", "Vec", "Box", "Rev", "Zip", "Range", "Slice", "Error", "Write", "Arguments", "Infallible", "Marker", "Mem", "Ops", "Convert"]
+# Primitive type names (str, usize, u8, ...) are deliberately NOT shadowed: they are language built-ins, not prelude or core *items*;
+# the property speaks of items named like prelude/core items (a first version of this menu shadowed them and was corrected).
+_UNUSED = []
+VALUE_NAMES = ["Some", "None", "Ok", "Err", "transmute", "drop", "from", "into", "try_from", "from_str", "next", "iter", "len", "write_str"]
+MACRO_NAMES = ["panic", "matches", "write", "unreachable", "vec", "format", "assert", "debug_assert", "todo", "unimplemented", "assert_eq",
+               "concat", "stringify", "line", "cfg", "compile_error", "include", "env", "format_args"]
+PRIMS = set()
+
+
+def shadow_item(name, guise):
+    if guise == "struct":
+        if name in PRIMS:
+            return "#[allow(non_camel_case_types)] pub struct %s;" % name
+        return "#[allow(non_camel_case_types)] pub struct %s;" % name
+    if guise == "modfn":
+        if name in VALUE_NAMES:
+            return "#[allow(non_snake_case)] pub fn %s() {}" % name
+        return "#[allow(non_snake_case)] pub mod %s {}" % name
+    if guise == "macro":
+        return "#[allow(unused_macros)] macro_rules! %s { ($($t:tt)*) => { compile_error!(\"the derive used a macro shadowed by the user\") } }" % name
+    raise ValueError(guise)
+
+
+def shadow_scopes(tier):
+    """list of (label, inner_attrs, scope_items, nostd)"""
+    out = []
+    all_sets = {
+        "all-struct": [shadow_item(n, "struct") for n in TYPE_NAMES + VALUE_NAMES],
+        "all-modfn": [shadow_item(n, "modfn") for n in TYPE_NAMES + VALUE_NAMES],
+        "all-macro": [shadow_item(n, "macro") for n in MACRO_NAMES],
+    }
+    for prelude in (False, True):
+        for nostd in (False, True):
+            base = "%s%s" % ("no_implicit_prelude+" if prelude else "", "no_std" if nostd else "std")
+            inner = "#![no_implicit_prelude]" if prelude else ""
+            out.append((base + "/plain", inner, "", nostd))
+            for lab, items in all_sets.items():
+                out.append((base + "/" + lab, inner, "\n".join("    " + i for i in items), nostd))
+    singles = []
+    if tier == "thorough":
+        for n in TYPE_NAMES + VALUE_NAMES:
+            for g in ("struct", "modfn"):
+                singles.append(("single/%s/%s" % (g, n), "", "    " + shadow_item(n, g), False))
+        for n in MACRO_NAMES:
+            singles.append(("single/macro/%s" % n, "", "    " + shadow_item(n, "macro"), False))
+    return out, singles
+
+
+def c16(tier):
+    import e2
+    import e3
+    from props_cfg import cover, klass, run_space
+    res = Result("C16", tier, "finite menu of hostile program scopes (no_std, no_implicit_prelude, every prelude/core name shadowed singly and all at once in three guises) x "
+                               "configuration class cover: compiled and run with the real derive, transcripts compared with the plain scope")
+    # the class cover is computed on the thinned space in both tiers (C09 thorough explores the full space)
+    spaces = run_space(res, "quick")
+    covers = {k: sorted(cover(sp, ("closure",))) for k, sp in spaces.items()}
+    enums_ = [make_decl("i8", [4, 6, 3, 5], salt=2), make_decl("i8", [-5, 3, -10, -4], salt=5)]
+    if tier == "thorough":
+        enums_ += [make_decl("u64", [9, 1, 2], salt=3), make_decl("i64", [enums.I64_MIN, -1, 0, enums.I64_MAX], salt=7),
+                   make_decl("u16", [0, 1, 2, 700, 701, 65535], salt=9), make_decl("usize", [7], salt=1)]
+    scopes, singles = shadow_scopes(tier)
+    bounds = dict(x1_depth=1, x2_extra=1, x2_cap=5, range_x1_depth=1, range_x2_extra=0)
+    subs = []
+    nostd_mods = []     # (sid, module text)
+    nostd_cases = []
+    for ei, d in enumerate(enums_):
+        cfgs = [e1.cfg_from_text(t, zz=False) for t in covers[klass(d)]]
+        for ci, cfg in enumerate(cfgs):
+            for si, (lab, inner, items, nostd) in enumerate(scopes):
+                sid = "e%d_c%03d_s%02d" % (ei, ci, si)
+                if nostd:
+                    mod = "pub mod %s {\n%s\n}" % (sid, e3.module_m_source(d, cfg, inner_attrs=inner, scope_items=items))
+                    nostd_cases.append((sid, d, cfg, lab, mod))
+                else:
+                    subs.append(Subj(sid, d, cfg, bounds=bounds, sweep_full=False, inner_attrs=inner, scope_items=items))
+        full_cfgs = [catalogue.full_config(d.gapless, m) for m in
+                     ({}, {"as_str": "table", "from_str": "table", "FromStr": "table", "iter": "table"},
+                      {"as_str": "match", "from_str": "match", "FromStr": "match", "iter": "next_and_back"})]
+        for ci, cfg in enumerate(full_cfgs):
+            for si, (lab, inner, items, nostd) in enumerate(singles):
+                subs.append(Subj("e%d_f%d_x%03d" % (ei, ci, si), d, cfg, bounds=bounds, sweep_full=False, inner_attrs=inner, scope_items=items))
+            # the plain reference for the singles
+            subs.append(Subj("e%d_f%d_plain" % (ei, ci), d, cfg, bounds=bounds, sweep_full=False))
+    # no_std: judge every module on its own first (a failing one is a violation, and is left out of the shared rlib)
+    verdicts = e2.compile_many([{"src": "#![no_std]\n#![allow(warnings)]\n" + c[4] + "\n"} for c in nostd_cases])
+    good = []
+    for c, v in zip(nostd_cases, verdicts):
+        res.states += 1
+        res.transitions += 1
+        if v.ok:
+            good.append(c)
+        else:
+            res.violation({"kind": "does-not-compile-in-scope", "scope": c[3], "config": c[2].describe(), "errors": v.errors[:2]},
+                          {"rustc": v.to_json(), "module": c[4][:3000]}, {"repro.rs": "#![no_std]\n" + c[4] + "\n"})
+    lib_src = "#![no_std]\n#![allow(warnings)]\n" + "\n".join(c[4] for c in good) + "\n"
+    lib_toml = "[package]\nname = \"c16_nostd_%s\"\nversion = \"0.0.0\"\nedition = \"2021\"\n[lib]\npath = \"lib.rs\"\n[dependencies]\nenum-tools = { path = \"%s\" }\n" % (tier, REPO)
+    for (sid, d, cfg, lab, mod) in good:
+        subs.append(Subj(sid, d, cfg, bounds=bounds, sweep_full=False, m_external="::c16_nostd_%s::%s" % (tier, sid)))
+    merged = explore(res, "%s/c16" % tier, subs, extra_crates={"c16_nostd_%s" % tier: (lib_toml, lib_src)},
+                     extra_deps="c16_nostd_%s = { path = \"../c16_nostd_%s\" }" % (tier, tier))
+
+    def group(s):
+        p = s.sid.split("_")
+        return p[0] + "_" + p[1]     # (enum, configuration)
+    compare_transcripts(res, merged, subs, group, "scope-dependent-behaviour")
+    res.extra["scopes"] = [s[0] for s in scopes] + ["%d single-name shadows" % len(singles)]
+    res.extra["cover_sizes"] = {k: len(v) for k, v in covers.items()}
+    res.rule = ("states = (scope, configuration, enum) subjects' explorer states + no_std modules judged by rustc; every subject must compile and give the "
+                "same per-item transcripts as the same configuration in the plain scope; non-trivial as in C01-C08")
+    res.bounds = {"shadowed_names": len(TYPE_NAMES) + len(VALUE_NAMES), "macro_names": len(MACRO_NAMES), "guises": 3}
+    for s in subs[:1] + subs[len(subs) // 2:len(subs) // 2 + 1]:
+        res.sample(s.describe())
+    res.sample({"scope_menu": [s[0] for s in scopes][:8]})
+    return res.finish()
+
+
+CHECKS["C16"] = c16
